@@ -40,7 +40,7 @@ def _classify(op, a, b):
     return ("view-differs", "")
 
 PROP = {
-    "thm": ["Umya.Thm.C02", "Umya.Thm.C02Bytes", "Umya.Thm.C02Sheet", "Umya.Thm.C02Book"],
+    "thm": ["Umya.Thm.C02", "Umya.Thm.C02Bytes", "Umya.Thm.C02Sheet", "Umya.Thm.C02Book", "Umya.Thm.C02Gen"],
     "harness": "c02",
     "level": "translation_validation",
     "stateful": True,
@@ -94,7 +94,7 @@ PROP = {
                   "Trusted: the Lean reader (spec, ~600 lines), the rendering Umya/Model/CellNode.lean (~150 lines, checked against the real parse on every run), the zip crate, "
                   "the harness view function and C01's fact scanner. Parts the reader does not interpret (theme, drawings, charts, VML, styles body) are checked "
                   "for XML well-formedness, content type and relationships only.",
-    "expect_theorems": ["C02_channels_match_source", "C02_text_channel", "C02_text_channel_conversion", "C02_attr_channel", "C02_escaped_is_inert", "C02_sheetdata_ascending",
+    "expect_theorems": ["C02_datatype_matches_source", "C02_channels_match_source", "C02_text_channel", "C02_text_channel_conversion", "C02_attr_channel", "C02_escaped_is_inert", "C02_sheetdata_ascending",
                         "C02_hyperlink_pairing",
                         "C02_table_only_grows", "C02_si_decodes", "C02_sst_decodes", "C02_cell_decodes", "C02_cell_written",
                         "C02_cell_kind_partial", "C02_cell_decodes_plain_partial", "C02_cell_uncached_formula_fails", "C02_cell_lazy_fails", "C02_cell_kind_normalised",
